@@ -84,6 +84,9 @@ func vSuite() (auth, integ int) {
 	if vParam("suites", 3) == 9 {
 		return 1 + vChoice(3), vWireInteg(vChoice(3))
 	}
+	if vParam("suites", 3) == 1 {
+		return 1, 1
+	}
 	c := vChoice(3)
 	return 1 + c, vWireInteg(c)
 }
